@@ -508,6 +508,11 @@ class Net:
         self.on_listen = None   # callable(stage, port) at each start-up suspension point
         self.conn_policy = None
         self.next_conn_latency = None
+        # bytes the connecting peer has sent so early that they sit in the socket buffer when the server's loop gets round to
+        # accepting the connection: the server's protocol sees them one loop iteration after connection_made (what a real
+        # selector loop does: the transport registers its reader in the iteration of connection_made, the next select() says
+        # "readable" at once)
+        self.next_conn_early_data = None
         self.bind_faults = {}   # port -> list of errno|None consumed per attempt
         self.bind_log = []
         self._next_port = 40000
@@ -607,6 +612,10 @@ class Net:
         self._event(conn, "c2s", "SYN", 0)
         try:
             server._attach_protocol(lst.protocol_factory())
+            if self.next_conn_early_data is not None:
+                early, self.next_conn_early_data = self.next_conn_early_data, None
+                self._event(conn, "c2s", "DATA", len(early))
+                self.loop.call_soon(server._incoming, "DATA", early)
             await asyncio.sleep(conn.latency)
         except BaseException:
             client.protocol = None
